@@ -641,6 +641,206 @@ theorem config_refusals (mac : String → MacAlg) (c : ClientCfg) :
               cases he
 
 
+/-! ## the run-time judge is a theorem about the model -/
+
+/-- loading a cookie whose cipher text decrypts to `time_t t ‖ d` with `now ≤ t` succeeds with `(d, t)` -/
+theorem cookieLoad_complete (dec : Bytes → Res Bytes) (now t : Int) (cookie cipher d : Bytes)
+    (hc : cookieCipher cookie = some cipher) (hd : dec cipher = .ok (timeBytes t ++ d))
+    (ht : Spec.TimeOk t) (hnow : now ≤ t) :
+    cookieLoad dec now cookie = ⟨.ok (d, t), false⟩ := by
+  rw [cookieLoad_closed]
+  cases cookie with
+  | nil => simp [cookieCipher] at hc
+  | cons c0 rest =>
+    rw [cookieCipher_cons] at hc
+    simp only []
+    split at hc
+    · cases hc
+    · rename_i h67
+      rw [if_neg h67, hc]
+      simp only [hd]
+      rw [afterDecrypt_spec, decodeBody_time t d ht]
+      simp only []
+      rw [if_neg (by omega)]
+
+/-- what the check's judge is told about a model/implementation answer -/
+def acceptedOf (o : LoadOut) : Option (Int × Bytes) :=
+  match o.result with
+  | .ok (d, t) => some (t, d)
+  | _ => none
+
+/-- **The run-time judge is a theorem about the model.**  For any encryptor `dec` with MAC function `tag`
+that (N) has no undefined behaviour on the presented cipher text, (S) accepts only `body ‖ tag body` and
+returns, for an issued body, the plaintext that was saved with it, (I) round-trips the issued cipher texts;
+and under (U) the ideal-MAC hypothesis at the presented cipher text — the property predicate
+`Spec.judgeLoad`, which the check evaluates on the IMPLEMENTATION's answers, holds of the model's answer
+for EVERY cookie string and clock value. -/
+theorem judge_generic (dec : Bytes → Res Bytes) (tag : Bytes → Bytes) (now : Int) (cookie : Bytes)
+    (issued : List Spec.Issued) (bodyOf : Spec.Issued → Bytes)
+    (hN : ∀ c, cookieCipher cookie = some c → dec c ≠ .ub)
+    (hS : ∀ c p, cookieCipher cookie = some c → dec c = .ok p →
+      ∃ body, c = body ++ tag body ∧ ∀ i ∈ issued, body = bodyOf i → p = timeBytes i.timeout ++ i.data)
+    (hU : ∀ c, cookieCipher cookie = some c → Spec.Unforgeable tag (issued.map bodyOf) c)
+    (hI : ∀ i ∈ issued, i.cipher = bodyOf i ++ tag (bodyOf i) ∧ Spec.TimeOk i.timeout ∧
+      dec i.cipher = .ok (timeBytes i.timeout ++ i.data)) :
+    Spec.judgeLoad issued now cookie.isEmpty (cookieCipher cookie)
+      (acceptedOf (cookieLoad dec now cookie)) (cookieLoad dec now cookie).cleared = true := by
+  obtain ⟨r1, r2, r3⟩ := rejects_cleanly dec now cookie hN
+  generalize ho : cookieLoad dec now cookie = o at *
+  obtain ⟨res, cl⟩ := o
+  cases res with
+  | ub => simp at r1
+  | ok v =>
+    obtain ⟨d, t⟩ := v
+    obtain ⟨hcl, hnow, cipher, plain, hc, hd, hb⟩ := cookie_load_sound dec now t cookie d cl ho
+    obtain ⟨body, hsplit, hdet⟩ := hS cipher plain hc hd
+    have hm := hU cipher hc body hsplit
+    rw [List.mem_map] at hm
+    obtain ⟨i, hi, hib⟩ := hm
+    have hp := hdet i hi hib.symm
+    obtain ⟨hic, hit, _⟩ := hI i hi
+    rw [hp, decodeBody_time _ _ hit] at hb
+    injection hb with hb
+    injection hb with hb1 hb2
+    subst hcl
+    unfold Spec.judgeLoad acceptedOf
+    simp only [hc]
+    have hany : (issued.any fun j => j.cipher == cipher && j.data == d && j.timeout == t) = true := by
+      rw [List.any_eq_true]
+      refine ⟨i, hi, ?_⟩
+      rw [hic, hib, ← hsplit, hb1, hb2]
+      simp
+    simp [hany, hnow]
+  | fail =>
+    have hcl := r2 rfl
+    simp only [] at hcl
+    unfold Spec.judgeLoad acceptedOf
+    simp only [hcl]
+    cases hc : cookieCipher cookie with
+    | none => simp
+    | some cipher =>
+      simp only [beq_self_eq_true, Bool.true_and, Bool.not_eq_true', List.any_eq_false]
+      intro i hi
+      obtain ⟨_, hit, hdec⟩ := hI i hi
+      by_cases hci : i.cipher = cipher
+      · by_cases hn : now ≤ i.timeout
+        · exfalso
+          have := cookieLoad_complete dec now i.timeout cookie cipher i.data hc (by rw [← hci]; exact hdec) hit hn
+          rw [ho] at this
+          cases this
+        · simp [hn]
+      · simp [hci]
+
+
+/-- the CBC text of a frame decrypts, under ANY IV, to a buffer whose framed payload is the framed plaintext -/
+theorem aes_issued_payload (C : CbcAlg) (hC : C.Lawful) (ck iv iv' pl : Bytes) (hpl : pl.length + 36 ≤ 2 ^ 32) :
+    Spec.aesPayload 16 (C.dec ck iv' (C.enc ck iv (aesFrame pl))) = some pl := by
+  have hb : C.block = 16 := hC.block_eq
+  have hf := aesBuf_facts pl.length
+  have hdd := hC.dec_enc ck iv iv' (aesFrame pl) (by rw [hb, aesFrame_length]; exact hf.1)
+  rw [hb] at hdd
+  exact aesPayload_frame pl _ (by omega) (by rw [hC.dec_len, hC.enc_len, aesFrame_length]) hdd
+
+
+/-- `judge_generic` for the hmac back-end: `saves` are the `(data, expiry)` pairs saved earlier under `k`;
+the judge is given their cipher texts. -/
+theorem judge_holds_hmac (M : MacAlg) (hM : M.Lawful) (k cookie : Bytes) (now : Int)
+    (saves : List (Bytes × Int))
+    (hT : ∀ x ∈ saves, Spec.TimeOk x.2 ∧ Spec.SizeOk (8 + x.1.length + M.size))
+    (hsz : Spec.SizeOk cookie.length)
+    (hU : ∀ c, cookieCipher cookie = some c →
+      Spec.Unforgeable (M.tag k) (saves.map fun x => timeBytes x.2 ++ x.1) c) :
+    Spec.judgeLoad (saves.map fun x => ⟨hmacEncrypt M k (timeBytes x.2 ++ x.1), x.1, x.2⟩) now cookie.isEmpty
+      (cookieCipher cookie) (acceptedOf (hmacLoad M k now cookie)) (hmacLoad M k now cookie).cleared = true := by
+  have hcs : ∀ c, cookieCipher cookie = some c → Spec.SizeOk c.length := by
+    intro c hc
+    have := cookieCipher_length cookie c hc
+    unfold Spec.SizeOk at *; omega
+  apply judge_generic (hmacDecrypt M k) (M.tag k) now cookie _ (fun i => timeBytes i.timeout ++ i.data)
+  · intro c hc; exact hmac_rejects_cleanly M hM k c (hcs c hc)
+  · intro c p hc hd
+    refine ⟨p, hmac_load_sound M hM k c p (hcs c hc) hd, ?_⟩
+    intro i _ h; exact h
+  · intro c hc
+    have := hU c hc
+    rw [List.map_map]
+    exact this
+  · intro i hi
+    rw [List.mem_map] at hi
+    obtain ⟨x, hx, rfl⟩ := hi
+    obtain ⟨ht, hs⟩ := hT x hx
+    refine ⟨rfl, ht, ?_⟩
+    have hl : (timeBytes x.2 ++ x.1).length = 8 + x.1.length := by rw [List.length_append, timeBytes_length]
+    exact hmac_roundtrip M hM k _ (by rw [hl]; exact hs)
+
+/-- `judge_generic` for the aes back-end: `saves` are `(iv, data, expiry)` triples (the IV the saving object
+had); the loading object may be in any IV state. -/
+theorem judge_holds_aes (C : CbcAlg) (M : MacAlg) (hC : C.Lawful) (hM : M.Lawful) (hds : M.size < 2 ^ 32)
+    (ck mk : Bytes) (st : AesSt) (cookie : Bytes) (now : Int)
+    (saves : List (Bytes × Bytes × Int))
+    (hT : ∀ x ∈ saves, Spec.TimeOk x.2.2 ∧ x.2.1.length + 44 ≤ 2 ^ 32)
+    (hsz : cookie.length < 2 ^ 32)
+    (hU : ∀ c, cookieCipher cookie = some c → Spec.Unforgeable (M.tag mk)
+      (saves.map fun x => C.enc ck x.1 (aesFrame (timeBytes x.2.2 ++ x.2.1))) c) :
+    Spec.judgeLoad
+      (saves.map fun x =>
+        ⟨C.enc ck x.1 (aesFrame (timeBytes x.2.2 ++ x.2.1)) ++ M.tag mk (C.enc ck x.1 (aesFrame (timeBytes x.2.2 ++ x.2.1))),
+         x.2.1, x.2.2⟩)
+      now cookie.isEmpty (cookieCipher cookie)
+      (acceptedOf (aesLoadCookie C M ck mk st now cookie)) (aesLoadCookie C M ck mk st now cookie).cleared = true := by
+  have hcs : ∀ c, cookieCipher cookie = some c → c.length < 2 ^ 32 := by
+    intro c hc
+    have := cookieCipher_length cookie c hc
+    omega
+  have hpl : ∀ (t : Int) (d : Bytes), (timeBytes t ++ d).length = 8 + d.length := by
+    intro t d; rw [List.length_append, timeBytes_length]
+  -- the body of an issued item is its cipher text without the tag
+  have hbody : ∀ e : Bytes, (e ++ M.tag mk e).take ((e ++ M.tag mk e).length - M.size) = e := by
+    intro e
+    rw [List.length_append, hM, Nat.add_sub_cancel, List.take_left' rfl]
+  apply judge_generic (fun x => (aesDecrypt C M ck mk st x).1) (M.tag mk) now cookie _
+    (fun i => i.cipher.take (i.cipher.length - M.size))
+  · intro c hc
+    exact aes_rejects_cleanly C M hC hM hds ck mk st c (by have := hcs c hc; unfold Spec.SizeOk; omega)
+  · intro c p hc hd
+    have hc32 := hcs c hc
+    obtain ⟨body, hsplit, _, _, _, hv⟩ :=
+      aes_load_sound C M hC hM hds ck mk st c p (by unfold Spec.SizeOk; omega) hd
+    obtain ⟨_, _, _, hpay⟩ := hv hc32
+    refine ⟨body, hsplit, ?_⟩
+    intro i hi hb
+    rw [List.mem_map] at hi
+    obtain ⟨x, hx, rfl⟩ := hi
+    obtain ⟨_, hlen⟩ := hT x hx
+    simp only [] at hb ⊢
+    rw [hbody] at hb
+    rw [hb, aes_issued_payload C hC ck x.1 st.ivDec _ (by rw [hpl]; omega)] at hpay
+    injection hpay with hpay
+    exact hpay.symm
+  · intro c hc
+    have := hU c hc
+    rw [List.map_map]
+    have hfun : ((fun i : Spec.Issued => i.cipher.take (i.cipher.length - M.size)) ∘ fun x : Bytes × Bytes × Int =>
+        (⟨C.enc ck x.1 (aesFrame (timeBytes x.2.2 ++ x.2.1)) ++ M.tag mk (C.enc ck x.1 (aesFrame (timeBytes x.2.2 ++ x.2.1))),
+          x.2.1, x.2.2⟩ : Spec.Issued)) = fun x => C.enc ck x.1 (aesFrame (timeBytes x.2.2 ++ x.2.1)) := by
+      funext x
+      simp only [Function.comp]
+      exact hbody _
+    rw [hfun]
+    exact this
+  · intro i hi
+    rw [List.mem_map] at hi
+    obtain ⟨x, hx, rfl⟩ := hi
+    obtain ⟨ht, hlen⟩ := hT x hx
+    simp only []
+    rw [hbody]
+    refine ⟨rfl, ht, ?_⟩
+    obtain ⟨c, st', h1, h2, h3⟩ := aes_roundtrip_core C M hC hM hds ck mk ⟨x.1, []⟩ st
+      (timeBytes x.2.2 ++ x.2.1) (by rw [hpl]; omega)
+    simp only [] at h2
+    rw [← h2]
+    exact h3
+
 /-! ## The full statement, and what of it is proved
 
 `FullStatement` (not provable in any executable model; kept here so that the gap is visible):
